@@ -42,6 +42,7 @@ def run(prog, rep, tier, repo):
     d4_bulk(prog, rep)
     d5_scale(prog, rep)
     d6_loops(prog, rep)
+    d8_regimes(prog, rep)
     d7_integral(prog, rep)
     rep.trusted.append('alea::f64() lies in [0, 1)')
     return {}
@@ -548,3 +549,188 @@ def d7_integral(prog, rep):
         else:
             rep.ok('integral', key, 'every returned value is integer-valued by construction')
     rep.floor('integral', 4, 'Bernoulli, Binomial, Poisson, DiscreteUniform')
+
+
+# =============================================================================== D8
+def _iv_subset(a, b):
+    lo_ok = a.lo > b.lo or (a.lo == b.lo and (a.lo_open or not b.lo_open))
+    hi_ok = a.hi < b.hi or (a.hi == b.hi and (a.hi_open or not b.hi_open))
+    return lo_ok and hi_ok
+
+
+def _iv_join(a, b):
+    if a is None:
+        return b
+    lo, lo_open = (a.lo, a.lo_open) if (a.lo < b.lo or (a.lo == b.lo and not a.lo_open)) else (b.lo, b.lo_open)
+    hi, hi_open = (a.hi, a.hi_open) if (a.hi > b.hi or (a.hi == b.hi and not a.hi_open)) else (b.hi, b.hi_open)
+    return Iv(lo, hi, lo_open, hi_open)
+
+
+def helper_regimes(prog, hk):
+    """Fold contradiction (Engler): a helper that folds a parameter p into r = (p <= c ? p : g(p)) and afterwards still
+    computes with the raw p is only consistent where the fold is the identity.  Returns {param_local: (Iv, why)}."""
+    f = prog.func(hk)
+    out = {}
+    if f is None:
+        return out
+    for ai in range(1, f.body.arg_count + 1):
+        if f.body.local_ty(ai) not in ('f64', 'f32'):
+            continue
+        pa = ('arg', ai, f.names.get(ai))
+        bylocal = {}
+        for st in f.stores():
+            if tag(st.target) == 'local':
+                bylocal.setdefault(st.target, []).append(st)
+        for loc, sts in bylocal.items():
+            if len(sts) != 2:
+                continue
+            ident = [st for st in sts if st.value == pa]
+            other = [st for st in sts if st.value != pa and pa in subterms(st.value)]
+            if len(ident) != 1 or len(other) != 1:
+                continue
+            region = Iv()
+            got = False
+            for cn, v in f.guards().get(ident[0].bb, []):
+                g = canon_guard(cn, v)
+                if g[0] == 'cmp':
+                    iv = _cmp_interval(g, pa)
+                    if iv is not None:
+                        region = _meet(region, iv)
+                        got = True
+            if not got:
+                continue
+            # raw uses of p outside guards and outside the fold's own definitions
+            raw = []
+            for st in f.stores():
+                if st in sts:
+                    continue
+                if pa in subterms(st.value):
+                    raw.append('%s := %s' % (show(st.target)[:20], show(st.value)[:60]))
+            for c in f.calls():
+                for a in c.args:
+                    if a == pa or (tag(a) != 'local' and pa in subterms(a) and not any(pa in subterms(st.value) and a == st.value for st in sts)):
+                        raw.append('%s(.. %s ..)' % (short(c.path or '?'), show(a)[:50]))
+            for r in f.return_values():
+                if pa in subterms(r):
+                    raw.append('return %s' % show(r)[:60])
+            # single-def temps are inlined into the stores above; multi-def stores whose value mentions p are the fold itself
+            if raw:
+                out[ai] = (region, 'folds %s into %s (identity for %s in %r) but still computes with the raw parameter: %s' % (
+                    f.names.get(ai), show(loc), f.names.get(ai), region, raw[0]))
+    return out
+
+
+def d8_regimes(prog, rep):
+    pdb = prog.pdb
+    n = 0
+    for d in c02.ALL:
+        path = DS + d
+        sk = '<%s as %sDistribution>::sample' % (path, DS)
+        f = prog.func(sk)
+        if f is None:
+            continue
+        sm = None
+        me = ('arg', 1, f.names.get(1))
+        for c in f.calls():
+            if not (c.path and c.path.startswith(DS) and c.path in pdb.bodies and '::' in c.path and not c.path.endswith('::sample')):
+                continue
+            regs = helper_regimes(prog, c.path)
+            if not regs:
+                continue
+            if sm is None:
+                sm = StructModel(prog, path)
+                inv = _field_intervals(sm)
+            for ai, (region, why) in sorted(regs.items()):
+                n += 1
+                arg = c.args[ai - 1]
+                key = 'regime:%s->%s:%s' % (d.split('::')[1], short(c.path), pdb.bodies[c.path].names().get(ai, ai))
+                # value sets of the argument: each defining store under its own guards, else the term under the call's guards
+                cases = []
+                if tag(arg) == 'local':
+                    for st in f.stores():
+                        if st.target == arg:
+                            cases.append((st.value, st.bb))
+                if not cases:
+                    cases = [(arg, c.bb)]
+                total = None
+                unknown = []
+                for val, bb in cases:
+                    merged = dict(inv)
+                    for bb2 in (bb, c.bb):
+                        for k2, v2 in _guard_intervals(f, bb2, me, sm).items():
+                            merged[k2] = _meet(merged.get(k2, Iv()), v2)
+
+                    def leaf(t, merged=merged):
+                        if tag(t) == 'field' and t[1] == me and t[2] in merged:
+                            return merged[t[2]]
+                        return None
+                    ev = AbsEval(leaf, const_value=lambda t: pdb.const_value(t[3]) if t[3] else None)
+                    r = ev.ev(val)
+                    unknown += ev.unknown
+                    total = _iv_join(total, r.iv)
+                if total is not None and _iv_subset(total, region):
+                    rep.ok('regime', key, 'argument in %r, inside the regime %r the helper is consistent in (%s)' % (total, region, why[:120]))
+                else:
+                    rep.viol('regime', key, '%s; the call passes %s whose value set %r is not inside that regime, so the helper runs with an inconsistent '
+                             'mixture of the folded and the raw parameter' % (why, show(arg)[:40], total), site_of(c.span))
+    rep.floor('regime', 1, 'Binomial::sample -> binomial_btpe(p)')
+
+    # fold <-> reflect pairing: a draw made with the folded parameter g(theta) must be mapped back, and only then
+    nr = 0
+    for d in c02.ALL:
+        path = DS + d
+        sk = '<%s as %sDistribution>::sample' % (path, DS)
+        f = prog.func(sk)
+        if f is None:
+            continue
+        me = ('arg', 1, f.names.get(1))
+        bylocal = {}
+        for st in f.stores():
+            if tag(st.target) == 'local' and st.target[1] != 0:
+                bylocal.setdefault(st.target, []).append(st)
+        for loc, sts in sorted(bylocal.items(), key=lambda kv: repr(kv[0])):
+            if len(sts) != 2:
+                continue
+            ident = [st for st in sts if tag(st.value) == 'field' and st.value[1] == me]
+            if len(ident) != 1:
+                continue
+            fld = ident[0].value
+            other = [st for st in sts if st is not ident[0] and fld in subterms(st.value) and st.value != fld]
+            if len(other) != 1:
+                continue
+            gi = set(f.guards().get(ident[0].bb, []))
+            go = set(f.guards().get(other[0].bb, []))
+            fold = go - gi
+            if len(fold) != 1:
+                continue
+            fc, fv = next(iter(fold))
+            if (fc, (not fv) if isinstance(fv, bool) else None) not in gi:
+                continue
+            # is the folded local used as a helper argument?
+            users = [c for c in f.calls() if loc in c.args and c.path and c.path in pdb.bodies]
+            if not users:
+                continue
+            nr += 1
+            key = 'reflect:%s:%s' % (d.split('::')[1], show(loc))
+            draws = set()
+            for st in f.stores():
+                if tag(st.value) == 'call' and st.value[1] in [c.path for c in users]:
+                    draws.add(st.target)
+            rets_fold = [st for st in f.stores() if st.target[:2] == ('local', 0) and (fc, fv) in f.guards().get(st.bb, [])]
+            rets_id = [st for st in f.stores() if st.target[:2] == ('local', 0) and (fc, not fv) in f.guards().get(st.bb, [])]
+
+            def strip(t):
+                while tag(t) == 'cast':
+                    t = t[2]
+                return t
+            ok_id = bool(rets_id) and all(strip(st.value) in draws for st in rets_id)
+            ok_fold = bool(rets_fold) and all(strip(st.value) not in draws and any(x in draws for x in subterms(st.value)) for st in rets_fold)
+            if ok_id and ok_fold:
+                rep.ok('reflect', key, 'draw made with %s is mapped back (%s) exactly when %s is %s' % (
+                    show(other[0].value)[:30], show(rets_fold[0].value)[:40], show(fc)[:30], fv))
+            else:
+                rep.viol('reflect', key, 'the parameter is folded (%s := %s) when %s is %s, but the result is %s on that path and %s on the other: '
+                         'a draw made with the folded parameter must be reflected back exactly on the folded path' % (
+                             show(loc), show(other[0].value)[:30], show(fc)[:30], fv, [show(st.value)[:40] for st in rets_fold],
+                             [show(st.value)[:40] for st in rets_id]), site_of(other[0].span))
+    rep.floor('reflect', 1, 'Binomial::sample p <-> 1-p')
